@@ -912,7 +912,53 @@ def classify_cycle(ctx, fn, cyc):
                 if pushes:
                     continue
             return (d[0], d[1])
+    if _capacity_bounded(ctx, fn, cs):
+        return ("queue-drain", "growth of the connection map up to MAX_CONNECTIONS")
     return ("unknown", "blocks %s" % sorted(cs)[:12])
+
+
+def _capacity_bounded(ctx, fn, cs):
+    """`loop { if connections.len() == MAX_CONNECTIONS { leave } accept; insert }`: every round passes the test, an accept and
+    an insertion under the descriptor just accepted (open, hence not a key of the map: trusted, as in C09), nothing is removed
+    in the cycle, and the test leaves the cycle at the constant: at most MAX_CONNECTIONS rounds."""
+    mc = ctx.facts.const_int("server::MAX_CONNECTIONS")
+
+    def call(b):
+        t = fn.blocks[b]["term"]
+        return t if t["k"] == "call" else None
+
+    def on_map(t):
+        return "HashMap" in (t["callee"].get("path") or "") and "ClientConnection" in (t["callee"].get("full") or "")
+
+    tests, inserts, accepts = [], [], []
+    for b in cs:
+        t = call(b)
+        if t is None:
+            continue
+        p = t["callee"].get("path") or ""
+        if on_map(t) and last_seg(p) in ("remove", "retain", "clear", "drain", "remove_entry", "extract_if"):
+            return False
+        if on_map(t) and last_seg(p) == "insert":
+            inserts.append(b)
+        if last_seg(p) == "accept" and "UnixListener" in p:
+            accepts.append(b)
+        if on_map(t) and last_seg(p) == "len" and t.get("target") is not None:
+            nb = fn.blocks[t["target"]]
+            sw = nb["term"]
+            dest = t.get("dest") or {}
+            for st_ in nb["stmts"]:
+                rv = st_.get("rv") or {}
+                if st_.get("k") == "assign" and rv.get("k") == "binop" and rv.get("op") in ("Eq", "Ge", "Ne", "Lt"):
+                    l, r_ = rv.get("l") or {}, rv.get("r") or {}
+                    if (l.get("place") or {}).get("local") == dest.get("local") and r_.get("k") == "const" and (r_.get("val") or {}).get("v") == mc:
+                        if sw["k"] == "switch" and (sw["discr"].get("place") or {}).get("local") == st_["place"]["local"] and len(sw["targets"]) == 1 and sw["targets"][0][0] == 0:
+                            when_false, when_true = sw["targets"][0][1], sw["otherwise"]
+                            leaves_at_cap = when_true if rv["op"] in ("Eq", "Ge") else when_false
+                            if leaves_at_cap not in cs:
+                                tests.append(b)
+    if len(tests) != 1 or len(inserts) != 1 or len(accepts) != 1:
+        return False
+    return all(breaks_cycle(fn, cs, b) for b in (tests[0], inserts[0], accepts[0]))
 
 
 def sub_cycles(fn, nodes):
